@@ -85,6 +85,8 @@ def jobs(tier):
                                 crosscheck=10))
     for issuer in ('deriver', 'flowstep'):
         for k in range(len(KINDS)):
+            if KINDS[k] == 'generate_into':
+                continue        # covered with a process as issuer
             if KINDS[k] == 'generate_over':
                 # a step replaced in place in the middle of a step phase:
                 # the statement does not say which object runs in that phase
